@@ -163,3 +163,128 @@ Proof.
       destruct (lookup_field env n f) as [[[] ft]|]; try discriminate.
       destruct (assign_next _ _ _ _ _ _); inversion H; reflexivity.
 Qed.
+
+Lemma obind_option_map_r : forall {A B C} (o : option A) (k : A -> option B) (h : B -> C),
+  obind o (fun a => option_map h (k a)) = option_map h (obind o k).
+Proof. intros. destruct o; reflexivity. Qed.
+
+Lemma option_map_ext' : forall {A B} (f g : A -> B) (o : option A),
+  (forall a, f a = g a) -> option_map f o = option_map g o.
+Proof. intros. destruct o; simpl; [rewrite H|]; reflexivity. Qed.
+
+Lemma npa_cons_map : forall env t v f g rest ks e es,
+  any_enter t v = VMap ks e (Some es) ->
+  npa env t v (f :: g :: rest) -> npa env e (entry_of e (aget f es)) (g :: rest).
+Proof. intros env t v f g rest ks e es H N. cbn [npa] in N. rewrite H in N. exact N. Qed.
+
+(* the struct step, shared by the plain-struct and the pointer-to-struct cases *)
+Section StructStep.
+  Variable env : senv.
+  Variable t : ty.
+  Variable isptr : bool.
+  Variable u : ty.
+  Variable n : N.
+  Hypothesis Hre : forall v', any_enter t v' = v'.
+  Hypothesis Hu : isptr = false -> u = TInt.
+
+  Definition sstep (fs : list (N * val)) (f : N) (rest : path) (x : val) : option val :=
+    match lookup_field env n f with
+    | Some (true, ft) =>
+        option_map (fun a => rewrap isptr u (VStruct n (ains f a fs)))
+          (assign_next env ft (instantiate (field_of ft (aget f fs))) rest x
+             (store_field ft (field_of ft (aget f fs)) x))
+    | _ => None
+    end.
+
+  Lemma assign_rewrap : forall fs f rest x,
+    assign env t (rewrap isptr u (VStruct n fs)) (f :: rest) x = sstep fs f rest x.
+  Proof.
+    intros. rewrite assign_cons, Hre. unfold sstep.
+    destruct isptr eqn:E.
+    - reflexivity.
+    - simpl. rewrite (Hu eq_refl). reflexivity.
+  Qed.
+
+  Lemma sstep_comm : forall fs f pr g qr x y,
+    (forall q t' v x' y', q <> [] -> conflict pr q = false -> npa env t' v pr -> npa env t' v q -> pr <> [] ->
+        obind (assign env t' v pr x') (fun v' => assign env t' v' q y') =
+        obind (assign env t' v q y') (fun v' => assign env t' v' pr x')) ->
+    conflict (f :: pr) (g :: qr) = false ->
+    (forall ft, lookup_field env n f = Some (true, ft) -> pr <> [] -> npa env ft (instantiate (field_of ft (aget f fs))) pr) ->
+    (forall ft, lookup_field env n g = Some (true, ft) -> qr <> [] -> npa env ft (instantiate (field_of ft (aget g fs))) qr) ->
+    obind (sstep fs f pr x) (fun v' => assign env t v' (g :: qr) y) =
+    obind (sstep fs g qr y) (fun v' => assign env t v' (f :: pr) x).
+  Proof.
+    intros fs f pr g qr x y IH Hc Np Nq.
+    destruct (N.eq_dec f g) as [->|Hfg].
+    - rewrite conflict_cons_same in Hc.
+      destruct pr as [|f' pr']; [rewrite conflict_nil_l in Hc; discriminate|].
+      destruct qr as [|g' qr']; [rewrite conflict_sym, conflict_nil_l in Hc; discriminate|].
+      unfold sstep. destruct (lookup_field env n g) as [[[] ft]|] eqn:Hl; try reflexivity.
+      rewrite !obind_map, !assign_next_cons.
+      set (E := instantiate (field_of ft (aget g fs))).
+      assert (R : forall (P Q : path) (X Y : val) (a : val),
+                 assign env ft E P X = Some a -> Q <> [] ->
+                 assign env t (rewrap isptr u (VStruct n (ains g a fs))) (g :: Q) Y =
+                 option_map (fun b => rewrap isptr u (VStruct n (ains g b fs))) (assign env ft a Q Y)).
+      { intros P Q X Y a Ha HQ. rewrite assign_rewrap. unfold sstep. rewrite Hl.
+        rewrite aget_ains_same. simpl field_of. rewrite (assign_result_inst _ _ _ _ _ _ Ha).
+        destruct Q as [|g0 Q0]; [contradiction|]. rewrite assign_next_cons.
+        apply option_map_ext'. intro b. rewrite ains_ains_same. reflexivity. }
+      specialize (IH (g' :: qr') ft E x y ltac:(discriminate) Hc (Np ft eq_refl ltac:(discriminate))
+                     (Nq ft eq_refl ltac:(discriminate)) ltac:(discriminate)).
+      destruct (assign env ft E (f' :: pr') x) as [a|] eqn:Ea;
+        destruct (assign env ft E (g' :: qr') y) as [b|] eqn:Eb; simpl obind in *.
+      + rewrite (R _ _ _ _ _ Ea) by discriminate. rewrite (R _ _ _ _ _ Eb) by discriminate.
+        rewrite IH. reflexivity.
+      + rewrite (R _ _ _ _ _ Ea) by discriminate. rewrite IH. reflexivity.
+      + rewrite (R _ _ _ _ _ Eb) by discriminate. rewrite <- IH. reflexivity.
+      + reflexivity.
+    - (* different fields *)
+      assert (R : forall f g (P Q : path) (X Y : val) a, f <> g ->
+                 assign env t (rewrap isptr u (VStruct n (ains f a fs))) (g :: Q) Y =
+                 match lookup_field env n g with
+                 | Some (true, gt) =>
+                     option_map (fun b => rewrap isptr u (VStruct n (ains g b (ains f a fs))))
+                       (assign_next env gt (instantiate (field_of gt (aget g fs))) Q Y
+                          (store_field gt (field_of gt (aget g fs)) Y))
+                 | _ => None
+                 end).
+      { intros f0 g0 P Q X Y a Hne. rewrite assign_rewrap. unfold sstep.
+        destruct (lookup_field env n g0) as [[[] gt]|]; try reflexivity.
+        rewrite aget_ains_other by congruence. reflexivity. }
+      unfold sstep at 1 3.
+      destruct (lookup_field env n f) as [[[] ft]|] eqn:Hlf.
+      + destruct (lookup_field env n g) as [[[] gt]|] eqn:Hlg.
+        * rewrite !obind_map.
+          set (A := assign_next env ft (instantiate (field_of ft (aget f fs))) pr x
+                      (store_field ft (field_of ft (aget f fs)) x)).
+          set (B := assign_next env gt (instantiate (field_of gt (aget g fs))) qr y
+                      (store_field gt (field_of gt (aget g fs)) y)).
+          etransitivity.
+          { apply obind_ext. intro a. rewrite (R f g pr qr x y a Hfg), Hlg. fold B. reflexivity. }
+          symmetry. etransitivity.
+          { apply obind_ext. intro b. rewrite (R g f qr pr y x b (not_eq_sym Hfg)), Hlf. fold A. reflexivity. }
+          destruct A, B; simpl; try reflexivity. rewrite ains_comm by congruence. reflexivity.
+        * rewrite obind_map. simpl obind at 2.
+          etransitivity.
+          { apply obind_ext. intro a. rewrite (R f g pr qr x y a Hfg), Hlg. reflexivity. }
+          destruct (assign_next _ _ _ _ _ _); reflexivity.
+        * rewrite obind_map. simpl obind at 2.
+          etransitivity.
+          { apply obind_ext. intro a. rewrite (R f g pr qr x y a Hfg), Hlg. reflexivity. }
+          destruct (assign_next _ _ _ _ _ _); reflexivity.
+      + simpl obind at 1. symmetry.
+        unfold sstep. destruct (lookup_field env n g) as [[[] gt]|] eqn:Hlg; try reflexivity.
+        rewrite obind_map.
+        etransitivity.
+        { apply obind_ext. intro b. rewrite (R g f qr pr y x b (not_eq_sym Hfg)), Hlf. reflexivity. }
+        destruct (assign_next _ _ _ _ _ _); reflexivity.
+      + simpl obind at 1. symmetry.
+        unfold sstep. destruct (lookup_field env n g) as [[[] gt]|] eqn:Hlg; try reflexivity.
+        rewrite obind_map.
+        etransitivity.
+        { apply obind_ext. intro b. rewrite (R g f qr pr y x b (not_eq_sym Hfg)), Hlf. reflexivity. }
+        destruct (assign_next _ _ _ _ _ _); reflexivity.
+  Qed.
+End StructStep.
